@@ -31,6 +31,10 @@ type scenario struct {
 	// Passive: the endpoints do not react when they observe EOF or an error: they keep their side open (a peer
 	// that waits for its own reasons); whatever has to be closed the relay has to close itself
 	Passive bool `json:"passive,omitempty"`
+	// UpClose: how Close of the upstream connection the relay dialled behaves ("" never fails; "tls" like
+	// tls.Conn.Close: reports an error when the close_notify alert cannot be written; "always": every Close
+	// reports an error). The socket is closed in every case. See upclose.go
+	UpClose string `json:"upclose,omitempty"`
 }
 
 // stateName is the state component of a signature.
@@ -38,6 +42,9 @@ func (sc scenario) stateName() string {
 	s := sc.State
 	if sc.Proc != "" {
 		s += "@" + sc.Proc
+	}
+	if sc.UpClose != "" {
+		s += "@close_" + sc.UpClose
 	}
 	if sc.Passive {
 		s += "@passive"
@@ -415,6 +422,7 @@ func run(sc scenario) (body func(), check func(r *vrt.Result) []finding) {
 	var closeTick, retTick int
 	body = func() {
 		w = hw.New(options(sc))
+		wrapUpstream(sc.UpClose) // New has not yielded: the relay has not dialled yet
 		dialled := setup(sc, w)
 		// peers react to EOF by closing
 		vrt.GoNamed("client-peer", func() {
